@@ -200,12 +200,23 @@ fn case(ctx: &Ctx, bytes: &[u8]) -> Outcome {
     check(ctx, &sess.forms, &sess.globals, &budgets, label, gc_at_pause)
 }
 
+/// C05's deep captures (a continuation stored under up to 600 pending calls, re-entered from
+/// shallow and deep later forms, optionally after a failed evaluation) under a budget sequence.
+fn deep_case(ctx: &Ctx, bytes: &[u8]) -> Outcome {
+    let mut c = Choices::new(bytes);
+    let (budgets, label) = decode_budgets(&mut c);
+    let gc_at_pause = c.flip();
+    let forms = crate::props::c05::deep_program(&mut c);
+    let globals = vec!["cd".to_string(), "log".to_string()];
+    check(ctx, &forms, &globals, &budgets, label, gc_at_pause)
+}
+
 impl Prop for C13 {
     fn id(&self) -> &'static str {
         "C13"
     }
     fn rule(&self) -> &'static str {
-        "sessions of the C01/C05 generators (call/cc productions on) x a budget sequence (constant 1, constant k in 1..64, or 1-8 random budgets log-uniform in 1..10^4, cycled); VM_A runs each form uninterrupted, VM_B with prepare_eval + run_count(b_i); per-form value/failure/output and the final value of every session global are compared; every slice must stay within its budget and the number of resumes within the uninterrupted instruction count. Non-trivial: the sliced run was actually suspended >= 2 times; distinct by (program, budgets)."
+        "sessions of the C01/C05 generators (call/cc productions on) and C05's deep captures (a continuation stored under up to 600 pending calls, re-entered from later shallow and deep forms) x a budget sequence (constant 1, constant k in 1..64, or 1-8 random budgets log-uniform in 1..10^4, cycled); VM_A runs each form uninterrupted, VM_B with prepare_eval + run_count(b_i); per-form value/failure/output and the final value of every session global are compared; every slice must stay within its budget and the number of resumes within the uninterrupted instruction count. Non-trivial: the sliced run was actually suspended >= 2 times; distinct by (program, budgets)."
     }
     fn assumptions(&self) -> Vec<&'static str> {
         vec![
@@ -217,6 +228,8 @@ impl Prop for C13 {
         ctx.journal_bytes.set(true);
         let cases = ctx.tier.pick(1_000u32, 14_000u32);
         ctx.run_bytes("session", cases, 1536, case);
+        let deep = ctx.tier.pick(16u32, 400u32);
+        ctx.run_bytes("deep", deep, 32, deep_case);
         // constant budgets 1..64 exhaustively on short fixed programs
         let progs = [
             "(+ 1 2)",
@@ -255,6 +268,7 @@ impl Prop for C13 {
                 let globals: Vec<String> = payload["globals"].as_array().map(|a| a.iter().filter_map(|x| x.as_str()).map(|x| x.to_string()).collect()).unwrap_or_default();
                 check(ctx, &forms, &globals, &budgets, "replay", payload["collect_at_every_pause"].as_bool().unwrap_or(false))
             }
+            "deep" => deep_case(ctx, &unhex(payload["bytes"].as_str().unwrap_or(""))),
             _ => case(ctx, &unhex(payload["bytes"].as_str().unwrap_or(""))),
         }
     }
